@@ -74,31 +74,8 @@ SLICES = {
 
 
 def run(ctx):
-    if ctx.replay:
-        c = ctx.replay['case']
-        plan = {c.get('label', 'marked'): [(c['prog'], c['inputs'])]}
-    else:
-        import os
-        total = int(os.environ.get('VERIF_N', 90 if ctx.quick else 1500))
-        only = os.environ.get('VERIF_SLICES')          # development: comma separated labels
-        active = {k: v for k, v in SLICES.items() if not only or k in only.split(',')}
-        wsum = sum(s[3] for s in active.values())
-        plan = {}
-        for label, (feats, tf, ap, w) in active.items():
-            n = max(2, round(total * w / wsum))
-            plan[label] = [X.generate(ctx.rng, feats, ap) for _ in range(n)]
-    judged = 0
-    for label, cases in plan.items():
-        tf = SLICES[label][1]
-        results, fails, legal = F.behaviour_check(ctx, label, cases, tf)
-        X.report(ctx, label, cases, results, fails, tf, per_group=2 if ctx.quick else 4, rounds=4 if ctx.quick else 8)
-        ctx.cover[f'{label}_programs_with_legal_inputs'] = len(legal)
-        judged += ctx.cover.get(f'{label}_judged', 0)
-        if results and len(ctx.samples) < 6:
-            ctx.sample({'slice': label, 'program': results[0]['text'], 'inputs': cases[0][1][:1]})
-    ctx.cover['judged_runs_total'] = judged
-    ctx.assumptions += [
+    X.run_slices(ctx, SLICES, 90 if ctx.quick else 1500, [
         'MiniFortran subset (see C01) + caller/callee structures: module subroutines (same module or imported), internal subroutines and functions with host association and local name clashes, module / elemental functions, statement functions, PARAMETER constants imported from a module or local',
         'call sites respect the Fortran aliasing rules; function callees are side-effect free; recursion excluded',
         'not generated: optional arguments / PRESENT, sequence association (resolve_sequence_association), array-section actuals, elemental references with array arguments, derived types, allowed_aliases',
-        'the PROGRAM driver is harness-owned and not passed through Loki']
+        'the PROGRAM driver is harness-owned and not passed through Loki'])
